@@ -7,7 +7,10 @@
 //   igris/datastruct/argvc.h       argvc_internal_split, argvc_internal_split_n
 //   igris/shell/mshell.c, rshell.c the four dispatchers
 //   igris/util/pathops.h           path_next, path_iterate, path_compare_node, path_remove_prefix
-//   igris/creader.h                creader_readline
+//   igris/creader.h                creader_readline, creader_skip, creader_skipws
+//   extension (round 3, see run_op2/gen2): path_is_abs/is_simple/is_double_dot/last_node, path_next(path,NULL),
+//   argvc_length_of_first, igris::buffer ==/!= and constructors, dstring (string.cpp via C19_dstr.cpp, util/dstring.h,
+//   util/dstring.c), mshell/rshell help routines, rshell_execute_v with the caller's argv
 //
 // Every buffer handed to the code is an exactly sized heap allocation (also
 // the empty one: a pointer one past a 1-byte block), C strings are text+NUL in
